@@ -42,6 +42,7 @@ type Program struct {
 	built    map[*ssa.Package]bool
 	repoPkgs []string
 	initPkgs []*ssa.Package // packages whose init runs (non-recursively) per path
+	harnessPkg *ssa.Package
 }
 
 type Worker struct {
@@ -269,6 +270,17 @@ func (w *Worker) runPath(harness *ssa.Function, prefix []Decision) (res PathResu
 			}
 		} else if res.Outcome != "ok" {
 			path.inconcl = append(path.inconcl, "no model for crash path")
+		}
+	}
+	if e.race != nil && len(e.race.races) > 0 && (res.Outcome == "ok" || res.Outcome == "panic") {
+		var keys []string
+		for k := range e.race.races {
+			keys = append(keys, k)
+		}
+		sort.Strings(keys)
+		for _, k := range keys {
+			path.addViolation("race", k, "", res.Model)
+			path.violations[len(path.violations)-1].Sched = e.sched.points
 		}
 	}
 	if res.Outcome == "panic" || res.Outcome == "deadlock" {
